@@ -36,7 +36,7 @@ W = {'open': 6, 'rpc': 4, 'consume': 10, 'deliver': 10, 'get': 1, 'return': 1, '
 
 def gen(tier, seed):
     rng = Rng(seed * 131 + 11)
-    n = 400 if tier == "quick" else 12000
+    n = 1500 if tier == "quick" else 12000
     cases = []
     for i in range(n):
         s = Session(rng, weights=W, chmax=rng.choice([2, 3, 6]), bound=rng.choice([1, 2, 4]), via_stream=rng.choice([0.0, 0.5, 1.0]))
